@@ -24,8 +24,8 @@ LINEBUFSIZE = 2048
 def build_harness(ctx, name, assertions):
     exe = os.path.join(ctx.scratch, name)
     srcs = [os.path.join(HARNESS, "relay_harness.c")] + \
-           [os.path.join(REPO, "src/common", f) for f in ("xmalloc.c", "xstring.c", "fd.c")]
-    ok = ctx.cc(exe, srcs, flags=["-fno-builtin", "-Wl,--wrap=fputs", "-Wl,--wrap=read"], san=True, assertions=assertions)
+           [os.path.join(REPO, "src/common", f) for f in ("xmalloc.c", "xstring.c", "fd.c", "xpoll.c")]
+    ok = ctx.cc(exe, srcs, flags=["-fno-builtin", "-Wl,--wrap=fputs", "-Wl,--wrap=read", "-Wl,--wrap=poll"], san=True, assertions=assertions)
     return exe if ok else None
 
 
@@ -38,7 +38,8 @@ def _big_stack():
 
 def run_model(ctx, args, text, timeout=1800):
     """the compiled Lean driver, with an unlimited stack (long lines = deep structural recursion)"""
-    p = subprocess.run([ctx.driver_path(), "relay"] + list(args), input=text.encode(), stdout=subprocess.PIPE,
+    p = subprocess.run([getattr(ctx, "_relay_driver", None) or ctx.driver_path(), "relay"] + list(args),
+                       input=text.encode(), stdout=subprocess.PIPE,
                        stderr=subprocess.PIPE, timeout=timeout, preexec_fn=_big_stack)
     if p.returncode != 0:
         raise RuntimeError("model driver failed: " + p.stderr.decode("utf-8", "replace")[-2000:])
@@ -792,6 +793,77 @@ def d9_probe(ctx, exe, dist):
                 "marker on %d probe strings (e.g. 'fooXXRETCODE:3\\n' -> 0); not judged by this check" % d9)
 
 
+def xpoll_probe(ctx, exe, dist):
+    """the REAL xpoll() (src/common/xpoll.c of the tree under test, linked into the harness) over a scripted poll(2)
+    vs `XPoll.xpoll` (Relay/XPoll.lean): return value, errno afterwards, what poll(2) was called with (entries,
+    translated events, timeout -- or not called at all), and the array afterwards (stale revents cleared, the kernel's
+    words translated, entries beyond nfds untouched).  Systematic: every combination of the five kernel bits (+ a
+    foreign bit) x stale revents x events x nfds/timeout/NULL/errno classes; then random arrays.
+    Oracle (policy-free, on the real code alone): a descriptor the kernel reports readable / in error / hung up must
+    come back with XPOLLREAD or XPOLLERR set, and one the kernel reports nothing on must not -- otherwise the loop of
+    _rsh_thread never reads it (output lost: C05) or spins on it."""
+    import re, select
+    rng = ctx.rng
+    try:
+        hdr = open(os.path.join(REPO, "src/common/xpoll.h")).read()
+        xp = {m.group(1): int(m.group(2), 16) for m in re.finditer(r"#define\s+(XPOLL\w+)\s+0x([0-9a-fA-F]+)", hdr)}
+        mask = xp["XPOLLREAD"] | xp["XPOLLERR"]
+    except Exception:
+        mask = None
+    lines = []
+    kbits = [select.POLLIN, select.POLLOUT, select.POLLERR, select.POLLHUP, select.POLLNVAL, 0x2]   # 0x2 = POLLPRI
+    for w in range(64):
+        r = sum(b for k, b in enumerate(kbits) if w >> k & 1)
+        for stale in (0, 0x33):
+            lines.append("xp 2 -1 7:1:%d,8:1:%d R1:%d,0" % (stale, stale, r))
+            lines.append("xp 2 -1 7:1:%d,8:1:%d R2:1,%d" % (stale, stale, r))
+    for ev in range(8):
+        lines.append("xp 1 -1 9:%d:5 R0:0" % ev)
+        lines.append("xp 3 0 9:%d:0,-1:%d:7,11:3:1 R1:0,0,4" % (ev, ev))
+    for nfds in (-2, -1, 0, 1, 2, 3):
+        for arr in ("null", "5:1:9,6:1:9,7:1:9"):
+            for k in ("E4", "E9", "E22", "E12", "R0:0,0,0", "R3:1,17,8", "R1:"):
+                for timeout in (-1, 0, 250):
+                    lines.append("xp %d %d %s %s" % (nfds, timeout, arr, k))
+    for _ in range(400):
+        n = rng.randrange(1, 6)
+        arr = ",".join("%d:%d:%d" % (rng.choice([-1, 3, 4, 900, 70000]), rng.randrange(0, 8), rng.choice([0, 1, 0x31, 0x7fff]))
+                       for _ in range(n))
+        k = rng.choice(["E%d" % rng.choice([4, 9, 11, 22])] +
+                       ["R%d:%s" % (rng.randrange(0, n + 1), ",".join(str(rng.choice([0, 1, 4, 8, 16, 17, 32, 25, 63]))
+                                                                      for _ in range(rng.randrange(0, n + 1))))] * 5)
+        lines.append("xp %d %d %s %s" % (rng.randrange(-1, n + 1), rng.choice([-1, 0, 1, 1000]), arr, k))
+    impl = run_impl(exe, [[l] for l in lines])
+    mod = run_model(ctx, ["xpoll"], "".join(l + "\n" for l in lines))
+    st = {"cases": len(lines), "reported": 0, "errors": 0, "invalid": 0}
+    for l, (ans, crash), m in zip(lines, impl, mod):
+        if crash is not None:
+            ctx.offender("crash", "xpoll aborts on `%s`: %s" % (l, crash[-300:]), {"xp": l})
+            continue
+        a = ans[0] if ans else ""
+        st["errors"] += a.startswith("-1 ") and " | - | " not in a
+        st["invalid"] += a.startswith("-1 ") and " | - | " in a
+        w = l.split()
+        if mask is not None and a and w[4].startswith("R") and not a.startswith("-1 ") and w[3] != "null":
+            krevs = [int(x) for x in w[4].split(":")[1].split(",") if x]
+            try:
+                xs = [int(e.split(":")[2]) for e in a.split(" | ")[2].split(",")]
+            except Exception:
+                xs = []
+            for i in range(min(int(w[1]), len(xs))):
+                kr = krevs[i] if i < len(krevs) else 0
+                want = bool(kr & (select.POLLIN | select.POLLERR | select.POLLHUP))
+                st["reported"] += want
+                if bool(xs[i] & mask) != want:
+                    ctx.offender("xpoll:readiness", "xpoll: poll(2) reports revents 0x%x on entry %d, xpoll hands back 0x%x: "
+                                 "`revents & (XPOLLREAD|XPOLLERR)` is %s -- the poll loop of _rsh_thread %s this descriptor"
+                                 % (kr, i, xs[i], bool(xs[i] & mask), "never reads" if want else "spins on"), {"xp": l})
+                    break
+        if a != m:
+            ctx.disagreement("xpoll.c vs the model (Relay/XPoll.lean)", "`%s`: impl `%s` model `%s`" % (l, a, m), {"xp": l})
+    dist["xpoll"] = st
+
+
 def run_check(ctx, prop, props_module, level):
     """the whole procedure shared by checks/c05.py and checks/c06.py"""
     import threading
@@ -802,6 +874,18 @@ def run_check(ctx, prop, props_module, level):
     builder.start()
     ctx.gen_consts(["cbuf", "dsh", "relay"])
     ctx.lean_build([props_module, "pdshmodel"])
+    # the model driver carries the regenerated constants of THIS run's tree; another check running in the same
+    # framework directory on another tree (a seeded sweep next to a thorough run) regenerates Gen/*.lean and relinks
+    # lean/.lake/build/bin/pdshmodel under our feet -- minutes of model calls would then answer for the wrong
+    # constants (a false alarm that does not reproduce).  This run keeps the driver it built.
+    try:
+        import shutil
+        mine = os.path.join(ctx.scratch, "pdshmodel-of-this-run")
+        shutil.copy2(ctx.driver_path(), mine)
+        if not os.environ.get("RELAY_SHARED_DRIVER"):          # (knob to demonstrate the hazard: use the shared binary)
+            ctx._relay_driver = mine
+    except OSError:
+        pass
     ctx.audit(props_module)
     cov = {"evaluations": 0, "distinct_nontrivial": 0, "samples": [], "_distinct": set(),
            "rule": "PINNED FIRST, every run, both build flavours (vlib/relay_pinned.py): lines of exactly 64/65/2047-2049/"
@@ -812,7 +896,8 @@ def run_check(ctx, prop, props_module, level):
                    "exactly at the ring's physical end, growth of a wrapped buffer, every name pool x -K x -N, EOF on one "
                    "stream long before the other, every fragmentation of two small streams on two hosts x every "
                    "interleaving, read(2) faults at every handler call (short reads, spurious EAGAIN, EINTR), pdcp/rpdcp "
-                   "remote stderr through the real _parallel_copy; pinned real runs (domain loop of dsh(), one stream ends "
+                   "remote stderr through the real _parallel_copy; the real xpoll() over a scripted poll(2): every combination of "
+                   "the kernel's revents bits x stale revents x events x nfds/timeout/NULL/errno classes; pinned real runs (domain loop of dsh(), one stream ends "
                    "first, exec fails after an unterminated fragment) and pinned scheduler cases; THEN RANDOM: "
                    "case = target set x options (-N, -K) x per (host, stream) payload x chunking x interleaved "
                    "schedule of handler calls; payload lines of length 0/1/../62-66/934-1002/1998-2001/3999/4000/"
@@ -824,7 +909,8 @@ def run_check(ctx, prop, props_module, level):
                    "distinct (payload, chunk sizes, options, targets, stream); controlled-scheduler part: 2-6 targets "
                    "with scripted stdout+stderr each under uniform/PCT/starve/eager/preempt-at-each-fputs schedules "
                    "(thorough: all io interleavings of 4 tiny configurations), distinct = distinct (stream, schedule); every read of "
-                   "every worker under the scheduler is replayed through the model's handler (loop replay)"}
+                   "every worker under the scheduler is replayed through the model's handler (loop replay), and after every "
+                   "poll return the handlers that read next, in order, are the model's (XPoll.loopIter)"}
     dist = {"tags": {}, "flavours": {}}
     ctx.log("constants regenerated, proofs built and audited")
     exe_dbg = build_harness(ctx, "relay_dbg", assertions=True)
@@ -944,6 +1030,7 @@ def run_check(ctx, prop, props_module, level):
         if errs:
             raise errs[0]
         d9_probe(ctx, exe_dbg, dist)
+        xpoll_probe(ctx, exe_rel, dist)
     if not replay:
         # ---- third part: the unmodified dsh.c under the controlled scheduler, adversarial schedules
         relay_sched.run_sched(ctx, prop, cov, dist)
@@ -974,7 +1061,7 @@ def run_check(ctx, prop, props_module, level):
                      "(C05.unstarted_host_writes_nothing); checked by real runs in which execvp fails (ENOENT/EACCES) "
                      "before, between and after hosts with unterminated output, stdout to a pipe and to a file"],
         trusted_base=["Lean 4.33 kernel", "axioms: propext, Classical.choice, Quot.sound at most (audited per theorem)",
-                      "hand-written model Relay/Model.lean tied to dsh.c/err.c by differential execution",
+                      "hand-written model Relay/Model.lean, Relay/XPoll.lean tied to dsh.c/err.c/xpoll.c by differential execution",
                       "Gen/Relay.lean, Gen/Cbuf.lean, Gen/Dsh.lean regenerated from /repo",
                       "harness/relay_harness.c (incl. its replica of dsh()'s 8-line domain loop), harness/relay_stubs.h, "
                       "harness/relay_writer.c, vlib/relay.py, vlib/relay_real.py, vlib/relay_sched.py + harness/sched/* "
